@@ -99,6 +99,20 @@ Theorem C06_idonly_added_streams_refuted :
   bad_decided (run faithful w_idonly (init [0])) 4 1 = true.
 Proof. vm_compute. reflexivity. Qed.
 
+(* Witness 3 (corpus/C06/detach-reset-data-tags.json): detaching a converter from its last tag resets the converter's
+   cache; a tag that filters on stream data (it may have matched that output) has to be evaluated again.  The repaired
+   detach re-opens every such tag for every stream (and the API call ends with startTaggingJobIfNeeded); the
+   unrepaired one left them decided.  (The truth environment of this file is a function of the imported data only, so
+   the staleness itself is outside `inv`; it is checked by the direct oracle with the converter cache as ground truth.) *)
+Theorem C06_detach_reset_reopens_data_tags :
+  forall st n t id, has_data_tag (tags st) = true -> In (n, t) (tags (after_detach repaired true st)) ->
+  d_data (t_def t) = true -> id < next st -> mem id (t_u t) = true.
+Proof. exact after_detach_reopens. Qed.
+
+Theorem C06_detach_reset_keeps_data_tags_refuted :
+  forall b st, after_detach faithful b st = st.
+Proof. reflexivity. Qed.
+
 (* the same histories on the repaired model *)
 Example C06_witnesses_repaired :
   bad_decided (run repaired w_lost (init [0])) 3 1 = false /\
